@@ -218,7 +218,15 @@ func (g *Gen) seqLit(seqSort string, elems []string) string {
 			for i := 0; i < n; i++ {
 				cs = append(cs, fmt.Sprintf("(= (%s %s %d) e%d)", si.At, app, i, i))
 			}
-			g.reg.decls = append(g.reg.decls, fmt.Sprintf("(assert (forall (%s) (! (and %s) :pattern (%s))))", strings.Join(ps, " "), strings.Join(cs, " "), app))
+			body := "(and " + strings.Join(cs, " ") + ")"
+			if seqSort == "Bytes" || seqSort == "Str" {
+				var rng []string
+				for i := 0; i < n; i++ {
+					rng = append(rng, fmt.Sprintf("(<= 0 e%d) (< e%d 256)", i, i))
+				}
+				body = "(=> (and " + strings.Join(rng, " ") + ") " + body + ")"
+			}
+			g.reg.decls = append(g.reg.decls, fmt.Sprintf("(assert (forall (%s) (! %s :pattern (%s))))", strings.Join(ps, " "), body, app))
 		}
 	}
 	if n == 0 {
@@ -235,7 +243,7 @@ func (g *Gen) zeros(seqSort, n string, elemZero string) string {
 		g.zeroFns[fn] = true
 		g.reg.decls = append(g.reg.decls, fmt.Sprintf("(declare-fun %s (Int) %s)", fn, seqSort),
 			fmt.Sprintf("(assert (forall ((n Int)) (! (=> (>= n 0) (and (= (%s (%s n)) n) (not (%s (%s n))))) :pattern ((%s n)))))", si.Len, fn, si.IsNil, fn, fn),
-			fmt.Sprintf("(assert (forall ((n Int) (i Int)) (! (= (%s (%s n) i) %s) :pattern ((%s (%s n) i)))))", si.At, fn, elemZero, si.At, fn))
+			fmt.Sprintf("(assert (forall ((n Int) (i Int)) (! (=> (and (<= 0 i) (< i n)) (= (%s (%s n) i) %s)) :pattern ((%s (%s n) i)))))", si.At, fn, elemZero, si.At, fn))
 	}
 	return "(" + fn + " " + n + ")"
 }
